@@ -32,7 +32,7 @@ type GChan struct {
 	Paused      bool      `json:"paused,omitempty"`
 	Clients     []GClient `json:"clients,omitempty"`
 	OmitClients bool      `json:"omit_clients,omitempty"`
-	E2e         string    `json:"e2e,omitempty"` // absent | null | ok
+	E2e         *GE2e     `json:"e2e,omitempty"` // nil: no e2e_processing_latency field
 	ClaimMem    bool      `json:"claim_mem,omitempty"` // send memory_depth / delivery_msg_count values of its own (nsqadmin recomputes them)
 }
 
@@ -42,7 +42,7 @@ type GTopic struct {
 	Num      [6]int64 `json:"num"` // depth backend msgs zone region global
 	Paused   bool     `json:"paused,omitempty"`
 	Channels []GChan  `json:"channels,omitempty"`
-	E2e      string   `json:"e2e,omitempty"`
+	E2e      *GE2e    `json:"e2e,omitempty"`
 }
 
 type GNsqd struct {
@@ -83,18 +83,6 @@ type GCluster struct {
 }
 
 // ---------------------------------------------------------------- what a stub serves
-
-func e2eJSON(kind string) string {
-	switch kind {
-	case "null":
-		return `,"e2e_processing_latency":null`
-	case "ok":
-		return `,"e2e_processing_latency":{"count":3,"percentiles":[{"quantile":0.99,"value":1200},{"quantile":0.5,"value":400}]}`
-	case "nullpct":
-		return `,"e2e_processing_latency":{"count":1,"percentiles":[null,{"quantile":0.5,"value":1}]}`
-	}
-	return ""
-}
 
 func (c GChan) json(inc bool) string {
 	if c.Null {
@@ -227,10 +215,7 @@ func coqChan(c GChan, inc bool) string {
 			}
 		}
 	}
-	e2e := "None"
-	if c.E2e == "ok" {
-		e2e = "(Some [false;false])"
-	}
+	e2e := coqE2e(c.E2e)
 	n := c.Num
 	return fmt.Sprintf("(Some (mkChan %s %s %s %s %s %s %s %s %s %s %s %s %s [%s] %s))", cb(c.Name),
 		zs(n[0]), zs(n[1]), zs(n[2]), zs(n[3]), zs(n[4]), zs(n[5]), zs(n[6]), zs(n[7]), zs(n[8]), zs(n[9]), zs(n[10]),
@@ -248,10 +233,7 @@ func coqTopics(ts []GTopic, inc bool) string {
 		for _, c := range t.Channels {
 			cs = append(cs, coqChan(c, inc))
 		}
-		e2e := "None"
-		if t.E2e == "ok" {
-			e2e = "(Some [false;false])"
-		}
+		e2e := coqE2e(t.E2e)
 		n := t.Num
 		parts = append(parts, fmt.Sprintf("(Some (mkTopic %s %s %s %s %s %s %s %s [%s] %s))", cb(t.Name),
 			zs(n[0]), zs(n[1]), zs(n[2]), zs(n[3]), zs(n[4]), zs(n[5]), lib.CoqBool(t.Paused), strings.Join(cs, ";"), e2e))
@@ -485,7 +467,8 @@ type chanResp struct {
 		Node     string `json:"node"`
 		ClientID string `json:"client_id"`
 	} `json:"clients"`
-	Message string `json:"message"`
+	Message string   `json:"message"`
+	E2e     *e2eResp `json:"e2e_processing_latency"`
 }
 
 func (c chanResp) nums() string {
@@ -513,6 +496,7 @@ type topicResp struct {
 	} `json:"nodes"`
 	Channels []*chanResp `json:"channels"`
 	Message  string      `json:"message"`
+	E2e      *e2eResp    `json:"e2e_processing_latency"`
 }
 
 func (e *viewEnv) get(path string) (int, []byte) {
@@ -674,13 +658,14 @@ func runCluster(o *lib.Out, cl *cluster, g GCluster, views []string) {
 		}
 		for _, c := range r.Channels {
 			if c != nil {
-				chans = append(chans, fmt.Sprintf("(mkOC %s %s %s)", cb(c.ChannelName), c.nums(), lib.CoqBool(c.Paused)))
+				chans = append(chans, fmt.Sprintf("(mkOC %s %s %s %s)", cb(c.ChannelName), c.nums(), lib.CoqBool(c.Paused), obsE2eTerm(c.E2e)))
 			}
 		}
 		warn := st == 200 && r.Message != ""
-		coq := fmt.Sprintf("(J18.CTopic %s %s %s %d %s [%s] %s %s [%s])", e.stage1("topic", g.Topic), e.statsLup(g.Topic, "", false), cb(g.Topic),
-			st, lib.CoqBool(warn), strings.Join(np, ";"), lib.CoqBool(r.Paused), cbl(nodes), strings.Join(chans, ";"))
-		e.emit(o, "topic", coq, st, warn, []string{fmt.Sprintf("topic_nodes=%d", len(nodes)), fmt.Sprintf("topic_channels=%d", len(chans))})
+		coq := fmt.Sprintf("(J18.CTopic %s %s %s %d %s [%s] %s %s [%s] %s)", e.stage1("topic", g.Topic), e.statsLup(g.Topic, "", false), cb(g.Topic),
+			st, lib.CoqBool(warn), strings.Join(np, ";"), lib.CoqBool(r.Paused), cbl(nodes), strings.Join(chans, ";"), obsE2eTerm(r.E2e))
+		e.emit(o, "topic", coq, st, warn, append([]string{fmt.Sprintf("topic_nodes=%d", len(nodes)), fmt.Sprintf("topic_channels=%d", len(chans))},
+			e.e2eTags(g.Topic, "")...))
 	}
 
 	if want("channel") {
@@ -697,9 +682,10 @@ func runCluster(o *lib.Out, cl *cluster, g GCluster, views []string) {
 			}
 		}
 		warn := st == 200 && r.Message != ""
-		coq := fmt.Sprintf("(J18.CChannel %s %s %s %s %d %s %s %s %s [%s])", e.stage1("topic", g.Topic), e.statsLup(g.Topic, g.Channel, true),
-			cb(g.Topic), cb(g.Channel), st, lib.CoqBool(warn), r.nums(), lib.CoqBool(r.Paused), cbl(nodes), strings.Join(clients, ";"))
-		e.emit(o, "channel", coq, st, warn, []string{fmt.Sprintf("channel_nodes=%d", len(nodes)), fmt.Sprintf("channel_clients=%d", len(clients))})
+		coq := fmt.Sprintf("(J18.CChannel %s %s %s %s %d %s %s %s %s [%s] %s)", e.stage1("topic", g.Topic), e.statsLup(g.Topic, g.Channel, true),
+			cb(g.Topic), cb(g.Channel), st, lib.CoqBool(warn), r.nums(), lib.CoqBool(r.Paused), cbl(nodes), strings.Join(clients, ";"), obsE2eTerm(r.E2e))
+		e.emit(o, "channel", coq, st, warn, append([]string{fmt.Sprintf("channel_nodes=%d", len(nodes)), fmt.Sprintf("channel_clients=%d", len(clients))},
+			e.e2eTags(g.Topic, g.Channel)...))
 	}
 
 	if want("counter") {
@@ -785,13 +771,13 @@ func genChan(r *lib.Rand, name string) GChan {
 		}
 	}
 	c.OmitClients = r.Chance(10)
-	c.E2e = []string{"absent", "absent", "ok", "null"}[r.Intn(4)]
+	c.E2e = genE2e(r, false, false) // (the first node's block is the receiver of the topic view's channel: kept free of null and repeated entries)
 	c.ClaimMem = r.Chance(20)
 	return c
 }
 
 func genTopic(r *lib.Rand, name string) GTopic {
-	t := GTopic{Name: name, Paused: r.Chance(20), E2e: []string{"absent", "ok", "null"}[r.Intn(3)]}
+	t := GTopic{Name: name, Paused: r.Chance(20), E2e: genE2e(r, true, true)}
 	for i := range t.Num {
 		t.Num[i] = genCounter(r)
 	}
@@ -814,6 +800,9 @@ func genTopic(r *lib.Rand, name string) GTopic {
 
 func genCluster(r *lib.Rand, k int) GCluster {
 	g := GCluster{Name: fmt.Sprintf("cluster-%d", k)}
+	// an idle cluster: every e2e window is empty (count 0 on all nodes); otherwise on some
+	genIdle = r.Chance(30)
+	genPctSet = genPercentileSet(r)
 	fails := []string{"500", "garbage", "wrongtype", "bignum"}
 	for i := range g.N {
 		n := GNsqd{Hostname: []string{"alpha", "beta", "gamma", "delta", ""}[r.Intn(5)], NoBcast: r.Chance(8), IgnoreFilter: r.Chance(15)}
@@ -982,6 +971,7 @@ func runView(o *lib.Out, r *lib.Rand, n int, replay string) {
 // and every subset of the 3 nsqlookupds failing for the list views.
 func runSweep(o *lib.Out, cl *cluster, r *lib.Rand) {
 	base := GCluster{Topic: "orders", Channel: "ch", Node: "N0"}
+	genIdle, genPctSet = false, []int{0, 1}
 	for i := range base.N {
 		n := GNsqd{Hostname: fmt.Sprintf("host%d", i)}
 		t := genTopic(r, "orders")
